@@ -25,6 +25,7 @@ import h2.connection
 import h2.errors
 import h2.events
 import h2.exceptions
+import h2.settings
 import priority
 
 from twisted.internet._producer_helpers import _PullToPush
@@ -181,6 +182,9 @@ class H2Connection(Protocol, TimeoutMixin):
                 self._requestAborted(event)
             elif isinstance(event, h2.events.WindowUpdated):
                 self._handleWindowUpdate(event)
+                self._wakeSendingLoop()
+            elif isinstance(event, h2.events.RemoteSettingsChanged):
+                self._handleRemoteSettingsChanged(event)
             elif isinstance(event, h2.events.PriorityUpdated):
                 self._handlePriorityUpdate(event)
             elif isinstance(event, h2.events.ConnectionTerminated):
@@ -658,6 +662,40 @@ class H2Connection(Protocol, TimeoutMixin):
         )
 
         return windowSize - alreadyConsumed
+
+    def _wakeSendingLoop(self):
+        """
+        Restart the data sending loop if it is parked waiting for some stream
+        to become unblocked.
+
+        A flow control window that reopens unblocks streams in the priority
+        tree; without this the loop would only notice on the next
+        L{writeDataToStream} or L{endRequest}, so data queued while the window
+        was exhausted could wait forever.
+        """
+        if self._sendingDeferred is not None:
+            d = self._sendingDeferred
+            self._sendingDeferred = None
+            d.callback(None)
+
+    def _handleRemoteSettingsChanged(self, event):
+        """
+        A change of SETTINGS_INITIAL_WINDOW_SIZE changes the flow control
+        window of every stream (RFC 7540, section 6.9.2), so it has to be
+        treated like a window update that applies to all streams: producers
+        paused on flow control are resumed and streams with queued data are
+        unblocked.
+
+        @param event: The Hyper-h2 event that encodes the changed settings.
+        @type event: L{h2.events.RemoteSettingsChanged}
+        """
+        if h2.settings.SettingCodes.INITIAL_WINDOW_SIZE in event.changed_settings:
+            # As for a connection-level WINDOW_UPDATE in _handleWindowUpdate.
+            for stream in list(self.streams.values()):
+                stream.windowUpdated()
+                if self._outboundStreamQueues.get(stream.streamID):
+                    self.priority.unblock(stream.streamID)
+            self._wakeSendingLoop()
 
     def _handleWindowUpdate(self, event):
         """
